@@ -98,7 +98,7 @@ def dyadic(rng, k, denom=8):
 # --------------------------------------------------------------------- MDP spec
 def gen_mdp_spec(rng, *, proper, max_states=6, max_actions=3, discounts=(0.5, 0.8, 0.9, 0.95, 0.99, 1.0),
                  nonpositive=False, uniform_actions=False, kinds=KEY_KINDS, zero_entries=True,
-                 rewards=None, absorbing_reward=True, min_states=1, extreme=False):
+                 rewards=None, absorbing_reward=True, min_states=1, extreme=False, leftover_abs=False):
     """Random table MDP.
 
     states 0..n-1 are non-absorbing, n..n+g-1 are explicit absorbing states.
@@ -157,7 +157,13 @@ def gen_mdp_spec(rng, *, proper, max_states=6, max_actions=3, discounts=(0.5, 0.
             r = 0.0
             if absorbing_reward and rng.random() < 0.3:
                 r = rng.choice((-1.0, 1.0)) if not (nonpositive or gamma == 1.0) else -1.0
-            trans.append([s, a, [[s, 8, r]]])
+            if leftover_abs:
+                # a table model whose absorbing flag was set on a state whose row was left in place: the declared transitions
+                # of an absorbing state lead elsewhere (they are never taken - the episode has ended - and the state is worth 0)
+                succ = sorted(set(rng.randrange(n + g) for _ in range(rng.randint(1, 2))))
+                trans.append([s, a, [[t, p, rng.choice(rchoices)] for t, p in zip(succ, dyadic(rng, len(succ)))]])
+            else:
+                trans.append([s, a, [[s, 8, r]]])
     k = rng.randint(1, min(3, n + g))
     if rng.random() < 0.75:
         init_states = sorted(rng.sample(range(n), min(k, n)))
@@ -289,6 +295,8 @@ def make_mdp(view, ctx=None, dist=None, alias='fresh', explicit_lists=False, sto
 
     import numpy as _np
     rtype = (float, _np.float64, float)[(view.n + view.spec['nA']) % 3]      # models written with numpy hand back numpy scalars
+    if (view.n + 2 * view.spec['nA'] + len(view.spec['trans'])) % 3 == 0 and all(float(r).is_integer() and abs(r) < 2 ** 53 for r in view.R.values()):
+        rtype = int                 # ... and models with step costs of -1 hand back Python ints
 
     def reward(s, a, ns):
         cb('reward', sid[s], aid[a], sid[ns])
